@@ -11,11 +11,11 @@ ID = 'C09'
 LEAN_MODULE = 'PncProofs.C09'
 LEAN_FILE = 'PncProofs/C09.lean'
 NAMESPACE = 'Props.C09'
-LEAN_CONE = ['PncModel.Words', 'PncModel.Camx.Landuse', 'PncModel.Camx.WindRead', 'PncModel.Camx.CloudRainRead', 'PncProofs.WindLemmas', 'PncProofs.CloudRainLemmas', 'PncModel.Camx.Uamiv', 'PncModel.Camx.Slab', 'PncProofs.WordsLemmas', 'PncProofs.LanduseLemmas', 'PncProofs.LanduseThms', 'PncProofs.UamivLemmas', 'PncProofs.C09']
+LEAN_CONE = ['PncModel.Words', 'PncModel.Camx.Landuse', 'PncModel.Camx.WindRead', 'PncModel.Camx.CloudRainRead', 'PncModel.Camx.BoundaryRead', 'PncProofs.WindLemmas', 'PncProofs.CloudRainLemmas', 'PncProofs.BoundaryLemmas', 'PncModel.Camx.Uamiv', 'PncModel.Camx.Slab', 'PncProofs.WordsLemmas', 'PncProofs.LanduseLemmas', 'PncProofs.LanduseThms', 'PncProofs.UamivLemmas', 'PncProofs.C09']
 LEMMA_FILES = ['PncProofs/WordsLemmas.lean', 'PncProofs/UamivLemmas.lean', 'PncProofs/LanduseLemmas.lean', 'PncProofs/LanduseThms.lean']
 REQUIRED_THEOREMS = ['tiles', 'header_counts', 'refDecode_encode', 'slab_tiles', 'slab_record_content', 'cloud_rain_tiles',
                      'cloud_rain_counts', 'wind_tiles', 'wind_step_shape', 'boundary_tiles', 'boundary_counts',
-                     'landuse_tiles', 'landuse_counts', 'landuse_read', 'wind_read', 'cloud_rain_read']
+                     'landuse_tiles', 'landuse_counts', 'landuse_read', 'wind_read', 'cloud_rain_read', 'boundary_read']
 RULE = ('uamiv files (all four NAME variants, 1-3 species with names up to 10 characters, nx, ny 1-4, nz 1-3, '
         '1-3 steps, begin/end flags with and without ETFLAG, any finite float32 payload incl. denormals and -0): '
         'kind write = library writer bytes vs the Lean encoder and an independent python record walker; kind '
@@ -423,7 +423,10 @@ def agree(case, out, res):
             return 'the python reference encoder and the Lean encoder differ'
         return _cr_model_diff(case, res)
     if case['kind'] == 'bnd':
-        return None if out[3:] == res['hex'] else 'the python reference encoder and the Lean encoder differ'
+        if out[3:] != res['hex']:
+            return 'the python reference encoder and the Lean encoder differ'
+        # the records the reader's own maps present against the Lean reader model on the same bytes
+        return S.bnd_model_diff(res['hex'], res)
     if case['kind'] in ('swrite', 'cwrite', 'wwrite'):
         return None if out[3:] == res['hex'] else 'writer bytes differ from the reference encoding (first difference at byte %d)' % _firstdiff(out[3:], res['hex'])
     if case['kind'] == 'sread':
